@@ -157,6 +157,7 @@ type Exec struct {
 	quietStore   bool
 	atomicStore  bool
 	extraShared  map[int]bool
+	recvVals     map[string]Val // values received by select cases (selectmodel.go)
 	ghostKeys    map[string]int // sync.Once / sync.Pool ghost cells (ghostsync.go)
 	ghostDefault map[int]Val
 
